@@ -9,7 +9,6 @@ use crate::tuiworld::{self, TraceEv, World, WorldCfg, SRC_HOST};
 use serde_json::json;
 use std::collections::BTreeMap;
 use std::net::IpAddr;
-use std::sync::Mutex;
 use std::time::Instant;
 use trippy_core::FlowId;
 use vcore::mc;
@@ -87,6 +86,10 @@ fn small_alphabet() -> Vec<Ev> {
 }
 
 fn record(findings: &mut Findings, cfg: &WorldCfg, h: &[Ev], f: &StepFail, size: Option<(u16, u16)>) {
+    if f.phase == "hang" {
+        // a command or a draw that never returns is C17's topic and is reported there
+        return;
+    }
     let key = f.key.clone();
     let weight = (h.len(), h.iter().map(|e| e.name().len()).sum::<usize>());
     let fnd = Finding {
@@ -111,6 +114,32 @@ fn record(findings: &mut Findings, cfg: &WorldCfg, h: &[Ev], f: &StepFail, size:
     }
 }
 
+/// Re-draw one reached state at the given sizes with the privacy oracle on every frame.
+fn privacy_redraw_job((cfg, h, sizes): (WorldCfg, Vec<Ev>, Vec<(u16, u16)>)) -> (u64, Vec<((u16, u16), StepFail)>) {
+    let mut out = vec![];
+    let mut n = 0;
+    let mut none = |_: &World, _: &mut Vec<StepFail>| {};
+    let (w, f) = explore::replay(&cfg, &h, &mut none);
+    if !f.is_empty() {
+        return (0, out);
+    }
+    let Some(mut w) = w else { return (0, out) };
+    for &(cw, ch) in &sizes {
+        w.resize(cw, ch);
+        explore::set_stage(&format!("drawing the frame at {cw}x{ch}"));
+        if mc::catch(|| w.draw()).is_err() {
+            break; // crashes are C17's topic
+        }
+        n += 1;
+        let mut fl = vec![];
+        privacy_oracle(&w, &mut fl);
+        for x in fl {
+            out.push(((cw, ch), x));
+        }
+    }
+    (n, out)
+}
+
 pub fn run(args: &Args) -> i32 {
     if let Some(path) = &args.replay {
         return c17::replay(path, "C18");
@@ -122,13 +151,13 @@ pub fn run(args: &Args) -> i32 {
     let mut findings = Findings::new();
     let (mut states, mut transitions, mut max_depth) = (0u64, 0u64, 0usize);
     let mut phases = vec![];
-    let mk = || make_check();
+    let mk: explore::MakeCheck = make_check;
     let wide = WorldCfg { size: (130, 40), ..WorldCfg::default() };
     let mut reached: Vec<(WorldCfg, Vec<Ev>)> = vec![];
     // (1) default display modes, full privacy alphabet
     {
         let depth = if tier == Tier::Thorough { 6 } else { 4 };
-        let r = explore::bfs(&wide, &alphabet(), &[], depth, if tier == Tier::Thorough { 80_000 } else { 6_000 }, &mk);
+        let r = explore::bfs(&wide, &alphabet(), &[], depth, if tier == Tier::Thorough { 80_000 } else { 6_000 }, mk);
         states += r.states;
         transitions += r.transitions;
         max_depth = max_depth.max(r.max_depth);
@@ -153,7 +182,7 @@ pub fn run(args: &Args) -> i32 {
             let mut al: Vec<Ev> = keys.into_iter().map(Ev::Key).collect();
             al.extend(traces.into_iter().map(|t| Ev::Trace(t, 0)));
             let depth = if tier == Tier::Thorough { 16 } else { 10 };
-            let r = explore::bfs(&rich, &al, &[], depth, if tier == Tier::Thorough { 100_000 } else { 3_000 }, &mk);
+            let r = explore::bfs(&rich, &al, &[], depth, if tier == Tier::Thorough { 100_000 } else { 3_000 }, mk);
             states += r.states;
             transitions += r.transitions;
             max_depth = max_depth.max(r.max_depth);
@@ -185,7 +214,7 @@ pub fn run(args: &Args) -> i32 {
                     ..WorldCfg::default()
                 };
                 let depth = if tier == Tier::Thorough { 4 } else { 3 };
-                let r = explore::bfs(&cfg, &small_alphabet(), &root, depth, 20_000, &mk);
+                let r = explore::bfs(&cfg, &small_alphabet(), &root, depth, 20_000, mk);
                 states += r.states;
                 transitions += r.transitions;
                 for (h, f) in &r.fails {
@@ -202,13 +231,15 @@ pub fn run(args: &Args) -> i32 {
     let mut positive = 0u64;
     for n in 0..=3u8 {
         let cfg = WorldCfg { size: (140, 40), extra_args: vec!["--tui-address-mode".into(), "both".into(), "--tui-privacy-max-ttl".into(), n.to_string()], ..WorldCfg::default() };
-        let mut chk = make_check();
-        let (w, f) = explore::replay(&cfg, &[Ev::Trace(TraceEv::Path3, 0)], &mut *chk);
+        let (screen, f) = {
+            let mut chk = make_check();
+            let (w, f) = explore::replay(&cfg, &[Ev::Trace(TraceEv::Path3, 0)], &mut *chk);
+            (w.map(|w| w.screen().join("\n")), f)
+        };
         for x in &f {
             record(&mut findings, &cfg, &[Ev::Trace(TraceEv::Path3, 0)], x, None);
         }
-        if let Some(w) = w {
-            let screen = w.screen().join("\n");
+        if let Some(screen) = screen {
             for ttl in 1..=3u8 {
                 positive += 1;
                 let ip = format!("10.{}.{}.1", 70 + ttl, ttl);
@@ -234,39 +265,22 @@ pub fn run(args: &Args) -> i32 {
     }
     let stride = if tier == Tier::Quick { (reached.len() / 80).max(1) } else { 1 };
     let picked: Vec<usize> = (0..reached.len()).step_by(stride).collect();
-    let size_fails: Mutex<Vec<(usize, (u16, u16), StepFail)>> = Mutex::new(vec![]);
-    let redraws = Mutex::new(0u64);
-    mc::par_for(picked.len(), mc::workers(), |k| {
-        if start.elapsed().as_secs_f64() > budget_s * 1.5 {
-            return;
-        }
-        let i = picked[k];
-        let (cfg, h) = &reached[i];
-        let mut none = |_: &World, _: &mut Vec<StepFail>| {};
-        let (w, f) = explore::replay(cfg, h, &mut none);
-        if !f.is_empty() {
-            return;
-        }
-        let Some(mut w) = w else { return };
-        for &(cw, ch) in &sizes {
-            w.resize(cw, ch);
-            if mc::catch(|| w.draw()).is_err() {
-                break; // crashes are C17's topic
+    let picked_states: Vec<(WorldCfg, Vec<Ev>, Vec<(u16, u16)>)> = if start.elapsed().as_secs_f64() > budget_s * 1.5 { vec![] } else { picked.iter().map(|i| (reached[*i].0.clone(), reached[*i].1.clone(), sizes.clone())).collect() };
+    let mut redraws = 0u64;
+    for (k, d) in explore::run_jobs(picked_states.clone(), privacy_redraw_job).into_iter().enumerate() {
+        let (cfg, h, _) = &picked_states[k];
+        match d {
+            explore::Done::Ok((n, fails)) => {
+                redraws += n;
+                for (s, f) in fails {
+                    record(&mut findings, cfg, h, &f, Some(s));
+                }
             }
-            *redraws.lock().unwrap() += 1;
-            let mut fl = vec![];
-            privacy_oracle(&w, &mut fl);
-            let mut g = size_fails.lock().unwrap();
-            for x in fl {
-                g.push((i, (cw, ch), x));
-            }
+            // a draw that never returns is C17's topic (reported there); here it only ends the job
+            explore::Done::Hung { .. } => {}
+            explore::Done::Crashed(m) => panic!("MACHINERY: a redraw job crashed: {m}"),
         }
-    });
-    for (i, s, f) in size_fails.into_inner().unwrap() {
-        let (cfg, h) = &reached[i];
-        record(&mut findings, cfg, h, &f, Some(s));
     }
-    let redraws = *redraws.lock().unwrap();
     tuiworld::remove_fixture();
     rep.merge_findings(findings);
     rep.set("states", json!(states));
